@@ -16,7 +16,7 @@ def afterSegno (e : Enc) : Enc :=
 theorem encEv_segno (nS nM : Nat) (e : Enc) : encEv nS nM e ⟨mds_SEGNO, 0⟩ = .ok (afterSegno e) := by
   have a1 : ¬ (mds_SEGNO = mds_REST ∧ (0 : Nat) ≠ 0) := by decide
   have a2 : ¬ (mds_SEGNO < mds_SLR ∧ (0 : Nat) ≠ 0) := by decide
-  have a3 : mds_SEGNO < mds_REST ∨ mds_SEGNO ≥ mds_SLR ∨ (0 : Nat) ≠ 0 := by decide
+  have a3 : (mds_SEGNO < mds_REST ∧ mds_SEGNO ≠ mds_CARRY) ∨ mds_SEGNO ≥ mds_SLR ∨ (0 : Nat) ≠ 0 := by decide
   have a9 : ¬ (mds_SEGNO = mds_LPB) := by decide
   simp only [encEv, a9, false_and, a1, a2, if_false, encOther, if_true, a3, afterSegno, disambP, needLenB, lastGt80]
   by_cases h1 : noteish e.lastType = true
